@@ -34,6 +34,7 @@ func popWidth(call *ssa.Call) (int64, ssa.Value, bool) {
 func runC02(c *Ctx, w *World, r *Report) {
 	names := []string{"bitmap.IndexSelect32", "bitmap.Select32", "bitmap.IndexSelect32R64", "bitmap.Select32R64", "bitmap.IndexRank64"}
 	fns, ok := requireFuncs(w, r, names...)
+	ReportMaskWord(w, r, names...)
 	ReportTableWidth(w, r)
 	ReportScale(w, r, names[:4]...)
 	ReportPair(w, r, names[:4]...)
